@@ -17,6 +17,10 @@ def handle (args : List String) : String :=
          !(["none", "tablename", "transaction", "transaction-bucket"].contains pmethod) then "bad-op" else
       s!"tick={msToNs t} upd={msToNs u} max={msToNs m} workers={w} chans={w} depth={d} mem={mm} routing={routing} pmethod={pmethod} buckets={b} wl={wl} rx={rx} list={list} noold={noold}"
     | _, _, _, _, _, _, _ => "bad-op"
+  | ["kafkaput", what] =>
+    -- written iff the broker accepted every message; a rejected batch stops the worker (C14 `kafka_failstop`)
+    if what == "accept" then "written=1 stopped=0" else if what == "reject" then "written=0 stopped=1" else "bad-op"
+  | ["datestring", _off] => "ok"
   | ["ddreport", nw, nc] =>
     -- every statistic the aggregator reported reaches Datadog as its own metric line: `bifrost.<component>.<name>.<unit>`,
     -- a count as `|c`, each part of a histogram report as a gauge `|g` (C19: nothing lost, nothing merged)
